@@ -97,6 +97,7 @@ func (propC17) Gen(seed uint64, tier string, idx int) *Plan {
 			p.Ops = append(p.Ops, op)
 		}
 		// keep-alive groups must be in time order per connection: they are, ops are generated in time order
+		stmtYields(r, p, 400)
 		p.Deadline = t + 40*time.Second
 	case "size":
 		limit := pickS(r, []int64{1024, 8192, 65536})
